@@ -167,7 +167,16 @@ class StoreProfile(Profile):
             vd = rng.choice(self.PUNCT_VDIMS[nvdim])  # "any labels without spaces": punctuation is allowed in a label
         if nvdim == 1 and self.fmt in ("hdf5", "vtk") and rng.random() < 0.25:
             vd = rng.choice([["T"], ["m_z"], ["rho"]])  # a one-component field may carry a label too
-        return {"op": "mkfield", "out": out, "mesh": mesh, "nvdim": nvdim, "vdims": vd, "unit": rng.choice(UNITS)}
+        o = {"op": "mkfield", "out": out, "mesh": mesh, "nvdim": nvdim, "vdims": vd, "unit": rng.choice(UNITS)}
+        if nvdim > 1 and rng.random() < 0.3:
+            # a permuted or partial component-to-axis mapping, keys written in any order; resolved against
+            # the final labels when the field is built (profiles may still replace the labels)
+            targets = list(range(ndim)) + [-1] * max(0, nvdim - ndim)
+            rng.shuffle(targets)
+            order = list(range(nvdim))
+            rng.shuffle(order)
+            o["mapping"] = {"perm": targets[:nvdim], "order": order}
+        return o
 
     def values_for(self, rng, rep):
         r = rng.random()
